@@ -15,7 +15,7 @@
 *)
 From Verif Require Import lib.MxC01 gen.FordGen model.Ford
      proofs.FordProofs proofs.FordSquareProofs proofs.FordSimProofs proofs.FordPathProofs proofs.FordLeadsProofs
-     proofs.FordDiscreteProofs proofs.FordExampleProofs
+     proofs.FordDiscreteProofs proofs.FordExampleProofs proofs.FordMeasUniqueProofs
      lib.MxScale gen.FordSteadyGen model.FordSteady proofs.FordSteadyProofs
      lib.VarStmt gen.VariantListGen model.VariantList proofs.VariantListProofs.
 From mathcomp Require Import all_ssreflect all_algebra.
@@ -280,6 +280,36 @@ Theorem C01_measurement_leads_refuted :
   Fm *m (ms_Z ms *m xi + ms_H ms *m w + ms_D ms) + Gm *m col_mx f xi + Hc + Jm *m w != 0.
 Proof. exact: measurement_leads_refuted. Qed.
 Print Assumptions C01_measurement_leads_refuted.
+
+(* 7b. The measurement clause determines (Z, H, D): for ANY invertible F (also one that is not diagonal, symmetric or
+       triangular: measurement equations referring to other measurement variables) the matrices computed by
+       _solve_measurement_equations are the only ones that satisfy the clause for every state and measurement shock; hence a
+       different way of solving the block that changes any of them violates the property on some input *)
+Theorem C01_measurement_solution_unique :
+  forall (F : fieldType) (nb nf ny nw : nat) (Fm : 'M[F]_ny) (Gm : 'M[F]_(ny, nf + nb)) (Hc : 'cV[F]_ny)
+         (Jm : 'M[F]_(ny, nw)) (Ua : 'M[F]_nb),
+  let ms := @solve_measurement (MCOps F) nb nf ny nw Fm Gm Hc Jm Ua in
+  Fm \in unitmx -> lsubmx Gm = 0 ->
+  forall (Z' : 'M[F]_(ny, nb)) (H' : 'M[F]_(ny, nw)) (D' : 'cV[F]_ny),
+  (forall (f : 'cV[F]_nf) (xi : 'cV[F]_nb) (w : 'cV[F]_nw),
+     Fm *m (Z' *m xi + H' *m w + D') + Gm *m col_mx f xi + Hc + Jm *m w = 0) ->
+  [/\ Z' = ms_Z ms, H' = ms_H ms & D' = ms_D ms].
+Proof. exact: measurement_solution_unique. Qed.
+Print Assumptions C01_measurement_solution_unique.
+
+(* solving with the TRANSPOSE of F is refuted for every invertible non-symmetric F (block  F y - F xi = 0, i.e. y = xi) *)
+Theorem C01_measurement_transposed_solve_refuted :
+  forall (F : fieldType) (ny : nat) (Fm : 'M[F]_ny), Fm \in unitmx -> Fm^T != Fm ->
+  let Gm : 'M[F]_(ny, 0 + ny) := row_mx 0 (- Fm) in
+  let Zt : 'M[F]_(ny, ny) := invmx (- Fm^T) *m rsubmx Gm in
+  ~ (forall xi : 'cV[F]_ny, Fm *m (Zt *m xi) + Gm *m col_mx (0 : 'cV[F]_0) xi = 0).
+Proof. exact: measurement_transposed_solve_refuted. Qed.
+Print Assumptions C01_measurement_transposed_solve_refuted.
+
+Theorem C01_nonsymmetric_unit_exists :
+  forall F : fieldType, exists Fm : 'M[F]_(1 + 1), Fm \in unitmx /\ Fm^T != Fm.
+Proof. exact: nonsymmetric_unit_exists. Qed.
+Print Assumptions C01_nonsymmetric_unit_exists.
 
 (* 8. Blanchard-Kahn verdict and eigenvalue classes, over the predicates regenerated from fords/solutions.py *)
 Theorem C01_verdict_iff_count :
